@@ -1168,8 +1168,22 @@ func RuleShareIn(r *Report, p *Program, rules aspectSet, keep func(parent string
 							}
 						}
 						closes := reachesCall(fn, func(n string) bool { return strings.HasSuffix(n, ".Close") }, map[*ssa.Function]bool{})
+						// a goroutine of a request (the parent returns after the timeout and stops receiving) must not be
+						// able to block in an unconditional channel send: it would never end
+						blocksOnSend := ""
+						if fn.Signature.Results().Len() == 2 {
+							for _, pa := range paths {
+								for _, e := range pa.Events {
+									if _, plain := e.Instr.(*ssa.Send); plain && e.Kind == "send" {
+										blocksOnSend = p.Pos(e.Pos)
+									}
+								}
+							}
+						}
 						d := ""
-						if !exits {
+						if blocksOnSend != "" {
+							d = "the goroutine hands what it read to its parent with an unconditional channel send (" + blocksOnSend + "): a datagram read after the parent stopped receiving (timeout) blocks it for ever"
+						} else if !exits {
 							d = "no path leaves the goroutine after a failed read"
 						} else if !closes {
 							d = "the connection the goroutine reads from is never closed by its parent"
